@@ -63,6 +63,7 @@ func c04(c *Ctx) {
 		"(int32 wrap-around modelled). The unencrypted reader and transport.ReadMsg are checked the same way."
 	r.NotDecided = []string{"'every single-bit flip is refused' beyond the fact that acceptance requires the SHA-1 comparison over exactly the returned bytes (modulo SHA-1 collisions)",
 		"the sticky decoder error after the inner Pop*s is never consulted: with the length bound in place it cannot cause acceptance (recorded as an assumption)"}
+	c.errorsKept("R04.X", "the packet path (messages, transport, mode, aes_ige): a refusal stays a refusal", 8, inPkgs(load.MsgPkg, load.TransPkg, load.ModePkg, load.IgePkg))
 	r.Rule("R04.G", "acceptance guards: key id, msg_key over decrypted[0:32+len], msg_id parity {1,3} (encrypted, plain, transport), exact length of plain packets, errors propagated, body = declared-length bytes", 9)
 	r.Rule("R04.B", "every allocation / slice sized by packet data is bounded on all reachable grid points (negative, oversized, truncated)", 3)
 	r.Rule("R04.E", "every exit of the three readers that returns no message returns a certainly non-nil error", 12)
